@@ -67,6 +67,55 @@ CHECKS = [
           "rewrites up to the length bound; after each step U_full, heralds and input size equal an untouched twin, the "
           "structural post-conditions hold, and editing any produced object leaves every other one's fingerprint unchanged.",
   "note": "n=4, depth 2/3, rewrite length 2/3; construction legality taken from the implementation (decided in C01/C02)"},
+ {"id": "C10", "engine": "E2", "ref": "DESIGN.md §3 C10",
+  "technique": "explicit-state search: Parameter automaton to closure; BFS over parameter updates x circuit templates vs RefCircuit",
+  "text": "(A) the Parameter automaton over a finite value/bound alphabet (incl. non-numeric and rejected updates), directly and "
+          "through a ParameterDict, is explored to closure: bounds invariant, rejected updates change nothing, documented "
+          "exception types. (B) BFS over interleavings of value/bound updates with construction of 8 placement templates, "
+          "copy and freeze; after every transition every live circuit's U equals RefCircuit at the current values or raises "
+          "CircuitCompilationError iff a value is invalid for its slot; frozen copies keep their values and list no parameters.",
+  "note": "part B to depth 4 (quick) / 6 (thorough), at most two live circuits at a time; non-finite values outside the alphabet"},
+ {"id": "C11", "engine": "E2+E3", "ref": "DESIGN.md §3 C11",
+  "technique": "explicit-state BFS over reconfiguration histories of long-lived objects with complete vars() fingerprints; differential oracle vs fresh object; sampling laws via choice-point enumeration",
+  "text": "BFS over attribute assignments, in-place mutations of circuit/parameters/source, reads and sampling calls on a "
+          "long-lived Sampler, QuickSampler and Analyzer; states are the complete vars() of the object; in every state the "
+          "distribution, the exact laws of sample()/sample_N_inputs/sample_N_outputs (all answers of the owned random "
+          "sources enumerated) and analysis results must equal those of a freshly built object in the same configuration.",
+  "note": "quick: depth-bounded; thorough: runs to closure where the alphabet is finite (reported per object in the evidence)"},
+ {"id": "C12", "engine": "E1", "ref": "DESIGN.md §3 C12",
+  "technique": "bounded exhaustive enumeration of qiskit gate sequences; amplitude-level comparison with qiskit Operator",
+  "text": "Every sequence up to the length bound over all ordered qubit tuples of cx, cz, swap, ccx, ccz on 2-4 qubits, "
+          "decorated with all 13 single-qubit gates, both allow_post_selection values: the converter refuses, or every "
+          "accepted amplitude of the converted circuit is one scalar times the Operator column and nothing accepted lies "
+          "outside the qubit subspace.",
+  "note": "sequence length <=3 (n=2), <=2 (n=3), 1 (n=4) quick; 4/3/2 thorough; qiskit Operator trusted"},
+ {"id": "C13", "engine": "E1", "ref": "DESIGN.md §3 C13",
+  "technique": "exhaustive enumeration of the finite gate library x angle alphabet x targets x swap tuples; amplitudes vs literal matrices",
+  "text": "Every gate class, every target option, an angle alphabet with special and generic values, SWAP on every 4-tuple of "
+          "distinct modes in range: amplitude matrix on the dual-rail basis over all heralds-satisfied outputs equals s x the "
+          "literal matrix with the stated |s|^2; heralded gates have no amplitude outside the qubit subspace.",
+  "note": "angles: finite alphabet; linearity covers superpositions"},
+ {"id": "C14", "engine": "E1+E3", "ref": "DESIGN.md §3 C14",
+  "technique": "exhaustive enumeration of a structured unitary alphabet x error-model configurations; scripted enumeration of the resampling loop",
+  "text": "Every phased permutation matrix (n<=4), identity-like, block, DFT, Givens-with-zeros, near-degenerate and Haar "
+          "matrices, with herald layouts, is mapped with the default error model: same U, adjacent bs/ps only, phases in "
+          "[0,2pi), heralds equal. Every combination of Constant/TopHat/Gaussian per slot x circuits x map seeds: declared "
+          "bounds, reproducibility, sub-unitarity. The Gaussian resampling loop is run on every scripted answer sequence with "
+          "<=3 out-of-range answers; TopHat at the ends of its range.",
+  "note": "'all seeds' = map seeds {0,1,2}; unitaries from a finite structured alphabet + seed-varied Haar"},
+ {"id": "C15", "engine": "E1", "ref": "DESIGN.md §3 C15",
+  "technique": "bounded exhaustive enumeration of base-circuit programs x inputs x callback orders; harness is the experiment callback",
+  "text": "All products of <=2 gates from a 12-gate alphabet (1 qubit), entangling gates incl. heralded/post-selected x leading/"
+          "trailing complex layers (2 qubits), GHZ/CCZ-type states (3 qubits): the callback checks it got exactly 3^n circuits, "
+          "each base + documented basis change, answers with exact RefFock frequencies; rho must be Hermitian, trace one, equal "
+          "to |psi><psi|, fidelity one, base unchanged; all 6 callback orders for one qubit and 18 for two are forced.",
+  "note": "noise-free frequencies; <=3 qubits; callback orders all for n=1, slice for n=2"},
+ {"id": "C16", "engine": "E1", "ref": "DESIGN.md §3 C16",
+  "technique": "bounded exhaustive enumeration of gate programs; harness is the experiment callback; comparison with choi_from_unitary and the closed-form gate fidelity",
+  "text": "Every product of <=2 gates of the 12-gate alphabet (1 qubit) and entanglers x 4x4 single-qubit layers (2 qubits): LI "
+          "Choi == choi_from_unitary(V), MLE Choi positive/TP with fidelity >= 0.99, gate fidelity equals the closed form for 6 "
+          "targets; V is the RefFock dual-rail unitary cross-checked against the literal product.",
+  "note": "MLE on all 1-qubit processes and a fixed slice of 2-qubit ones (iterative solver, seconds each)"},
 ]
 _REASON = "check not built yet in this session (work in progress; not a claim that the technique cannot apply)"
 NOT_YET = [(f"C{i:02d}", _REASON) for i in range(1, 20) if f"C{i:02d}" not in {c["id"] for c in CHECKS}]
